@@ -199,6 +199,14 @@ impl<'a> G<'a> {
         }
     }
 
+    fn split_join(&mut self) -> UOp {
+        UOp::SplitJoin {
+            kind: *self.rng.pick(&[JoinKind::Inner, JoinKind::Left, JoinKind::Outer]),
+            local: *self.rng.pick(&[JoinLocal::Hash, JoinLocal::SortMerge]),
+            m: self.rng.range(1, 6) as u32,
+        }
+    }
+
     fn batch_spec(&mut self) -> BatchSpec {
         random_batch(self.rng)
     }
@@ -212,7 +220,9 @@ impl<'a> G<'a> {
         let mut size = in_size;
         for _ in 0..n {
             let fan = self.cfg.focus == Focus::Fan && size <= 300 && self.rng.chance(1, 3);
-            let op = match if fan { 11 } else { self.rng.below(12) } {
+            let join_focus = self.cfg.focus == Focus::Join && size <= 40 && self.rng.chance(1, 3);
+            let op = match if fan { 11 } else if join_focus { 100 } else { self.rng.below(12) } {
+                100 => self.split_join(),
                 0 | 1 => UOp::Map { mul: self.rng.range(-2, 3), add: self.rng.range(-5, 5) },
                 2 => UOp::MapState,
                 3 => UOp::Filter { m: self.rng.range(2, 5), r: 0 },
@@ -222,6 +232,7 @@ impl<'a> G<'a> {
                 7 => self.keyed_agg_op(),
                 8 if !iterate => self.global_agg_op(),
                 9 => UOp::CountWindow { n: self.rng.usize(1, 4), s: 1, exact: self.rng.chance(1, 2), content: false },
+                10 if size <= 40 => self.split_join(),
                 11 if size <= 300 => UOp::SplitZip { m: self.rng.range(2, 4), m2: self.rng.range(2, 4) },
                 10 if !iterate && depth == 0 && size <= 100 => {
                     let body = self.body(false, depth + 1, size);
@@ -240,6 +251,10 @@ impl<'a> G<'a> {
                 UOp::Shuffle | UOp::GroupByFold(_) | UOp::GroupByReduce(_) | UOp::GroupByFold2(_)
                 | UOp::GroupByReduce2(_) | UOp::GroupBySum | UOp::GroupByCount | UOp::GroupByAvg
                 | UOp::GroupByMin | UOp::GroupByMax | UOp::CountWindow { .. } | UOp::Replay { .. } => rep = Rep::Unlimited,
+                UOp::SplitJoin { .. } => {
+                    rep = Rep::Unlimited;
+                    size = size * size;
+                }
                 UOp::Fold(_) | UOp::Reduce(_) | UOp::FoldAssoc(_) | UOp::ReduceAssoc(_) | UOp::SplitZip { .. } => rep = Rep::One,
                 UOp::FlatMap { c } => size *= *c as usize,
                 _ => {}
@@ -265,7 +280,7 @@ impl<'a> G<'a> {
         let w: [u64; 8] = match f {
             Focus::All => [6, 4, 2, 4, 4, 4, 3, 4],
             Focus::Agg => [3, 10, 5, 3, 0, 1, 1, 2],
-            Focus::Join => [3, 1, 0, 3, 12, 1, 0, 1],
+            Focus::Join => [3, 1, 0, 3, 12, 1, 3, 1],
             Focus::Fan => [3, 1, 0, 3, 1, 12, 4, 2],
             Focus::Seq => [10, 0, 2, 1, 0, 2, 0, 2],
             Focus::Loops => [3, 2, 1, 3, 1, 1, 12, 1],
